@@ -1,6 +1,8 @@
 """Per-property configuration of ./check (which build configurations run, floors, layers)."""
 
 PROPS = {
+    "C03": dict(configs=["ring", "aws"], floor=500),
+    "C17": dict(configs=["ring", "aws"], floor=1000),
     "C01": dict(configs=["ring", "aws"], floor=1000),
     "C02": dict(configs=["ring", "aws"], floor=1000),
     "C04": dict(configs=["ring", "aws"], floor=1000),
